@@ -352,9 +352,13 @@ class CSum(Member):
 
 # ----------------------------------------------------------------------------------- the world
 class World(object):
-    def __init__(self, seed, dim, t):
+    def __init__(self, seed, dim, t, knob=1.0):
         self.rng = np.random.RandomState(seed)
         self.dim, self.t = dim, t
+        # one scalar degree of freedom of the world, tuned adversarially by the caller: it scales the slope of the
+        # non-smooth members and the threshold of the Huber members (worst cases of first-order methods are
+        # typically of this kind, with a slope / threshold matched to step sizes and horizon)
+        self.knob = float(knob)
         self.anchor = self.rng.normal(size=dim)
         self.constraints = []
         self.metrics = []
@@ -395,11 +399,11 @@ class World(object):
         d = self.dim
         if name == "SmoothStronglyConvexFunction":
             if r < 0.4 and L > mu and not math.isinf(L):
-                return Huber(self, L - mu, self.t * self.rng.choice([0.02, 0.05, 0.1, 0.2, 0.4]), mu, c, b)
+                return Huber(self, L - mu, self.knob * self.t * self.rng.choice([0.02, 0.05, 0.1, 0.2, 0.4]), mu, c, b)
             return Quadratic(self, self.spectrum(mu, L), c, b)
         if name == "SmoothConvexFunction":
             if r < 0.5 and not math.isinf(L):
-                return Huber(self, L, self.t * self.rng.choice([0.02, 0.05, 0.1, 0.2, 0.4]), 0.0, c, b)
+                return Huber(self, L, self.knob * self.t * self.rng.choice([0.02, 0.05, 0.1, 0.2, 0.4]), 0.0, c, b)
             return Quadratic(self, self.spectrum(0.0, L), c, b)
         if name == "SmoothFunction":
             return Quadratic(self, self.spectrum(-L, L), c, b)
@@ -409,9 +413,9 @@ class World(object):
             return L1(self, self.rng.choice([0.5, 1.0, 3.0]), c, mu=mu, b=b)
         if name == "ConvexFunction":
             if r < 0.4:
-                return L1(self, self.rng.choice([0.05, 0.5, 1.0, 3.0]), c, b=b)
+                return L1(self, self.knob * self.rng.choice([0.05, 0.5, 1.0, 3.0]), c, b=b)
             if r < 0.7:
-                return L2Norm(self, self.rng.choice([0.05, 0.5, 1.0, 3.0]), c, b)
+                return L2Norm(self, self.knob * self.rng.choice([0.05, 0.5, 1.0, 3.0]), c, b)
             return Quadratic(self, self.spectrum(0.0, self.rng.choice([1.0, 5.0])), c, b)
         if name == "ConvexLipschitzFunction":
             M = kw["M"]
@@ -658,10 +662,10 @@ def concrete_namespace():
     return ns
 
 
-def run_once(code, fname, kwargs, seed, dim, t):
+def run_once(code, fname, kwargs, seed, dim, t, knob=1.0):
     """one concrete run; returns (list of (kind, value) of the initial conditions, achieved performance);
     a domain violation counts as a violated inequality"""
-    w = World(seed, dim, t)
+    w = World(seed, dim, t, knob)
     ConcretePEP.world = w
     ns = concrete_namespace()
     exec(code, ns)
@@ -678,16 +682,16 @@ def _viol(cons):
     return max([v for k, v in cons if k == "le"] + [0.0])
 
 
-def best_feasible_run(code, fname, kwargs, seed, dim):
+def best_feasible_run(code, fname, kwargs, seed, dim, knob=1.0):
     """scaling t of the free points (towards the anchor) for which every initial condition holds, as large as
     found; an equality initial condition is met by bisection on t.  Returns (t, performance)."""
-    cons, perf = run_once(code, fname, kwargs, seed, dim, 4.0)
+    cons, perf = run_once(code, fname, kwargs, seed, dim, 4.0, knob)
     eqs = [i for i, (k, _) in enumerate(cons) if k == "eq"]
     if len(eqs) > 1:
         raise Unsupported("several equality initial conditions")
     if eqs:
         i = eqs[0]
-        g = lambda t: run_once(code, fname, kwargs, seed, dim, t)
+        g = lambda t: run_once(code, fname, kwargs, seed, dim, t, knob)
         hi, (chi, _) = 4.0, (cons, perf)
         lo = 1e-6
         clo, _ = g(lo)
@@ -711,7 +715,7 @@ def best_feasible_run(code, fname, kwargs, seed, dim):
             feas = (t, perf)
             break
         t /= 2
-        cons, perf = run_once(code, fname, kwargs, seed, dim, t)
+        cons, perf = run_once(code, fname, kwargs, seed, dim, t, knob)
     if feas is None:
         raise Unsupported("no feasible scaling found")
     lo, hi = feas[0], feas[0] * 2
@@ -719,9 +723,37 @@ def best_feasible_run(code, fname, kwargs, seed, dim):
     if feas[0] < 4.0:
         for _ in range(14):
             mid = (lo + hi) / 2
-            cons, perf = run_once(code, fname, kwargs, seed, dim, mid)
+            cons, perf = run_once(code, fname, kwargs, seed, dim, mid, knob)
             if _viol(cons) <= 1e-10:
                 lo, best = mid, (mid, perf)
             else:
                 hi = mid
+    return best
+
+
+def tuned_run(code, fname, kwargs, seed, dim):
+    """best_feasible_run maximised over the world's knob (coarse geometric grid, then two local refinements);
+    returns (scaling, performance, knob)"""
+    best = None
+
+    def ev(k):
+        nonlocal best
+        try:
+            t, perf = best_feasible_run(code, fname, kwargs, seed, dim, k)
+        except Unsupported:
+            return None
+        if perf == perf and (best is None or perf > best[1]):
+            best = (t, perf, k)
+        return perf
+    grid = [2.0 ** e for e in (-5, -3, -2, -1, 0, 1, 2, 3)]
+    for k in grid:
+        ev(k)
+    if best is None:
+        raise Unsupported("no feasible world for any knob")
+    step = 2.0 ** 0.5
+    for _ in range(3):
+        k0 = best[2]
+        ev(k0 / step)
+        ev(k0 * step)
+        step = step ** 0.5
     return best
